@@ -251,6 +251,7 @@ pub fn profile(name: &str) -> Cfg
             bump(&mut c, &[(K::Revoke, 12), (K::Register, 8), (K::On, 8), (K::Once, 4), (K::Despawn, 8), (K::Kill, 2), (K::Broadcast, 8), (K::EntityEvent, 8)]);
             c.modes = [20, 40, 40];
             c.d_driver[D::Gc as usize] = 14;
+            c.despawn_trig_boost = 4;
             c.pct_app_setup = 6;
             c.d_driver[D::Despawn as usize] = 8;
             c.d_driver[D::Spawn as usize] = 6;
@@ -265,6 +266,7 @@ pub fn profile(name: &str) -> Cfg
             c.d_tree = dset(&[(D::Despawn, 8), (D::DespawnRec, 2), (D::Remove, 10), (D::Insert, 6), (D::Poll, 3), (D::Gc, 2), (D::Spawn, 4), (D::TriggerMutation, 2), (D::Run, 3)]);
             c.d_driver = dset(&[(D::Spawn, 8), (D::Despawn, 8), (D::DespawnRec, 3), (D::Remove, 12), (D::Insert, 8), (D::Gc, 4), (D::Poll, 10), (D::Run, 5), (D::Broadcast, 3), (D::Reparent, 3)]);
             c.pct_direct_step = 60;
+            c.despawn_trig_boost = 3;
             c.hierarchy_pct = 40;
             c.steps = (3, 10);
             if name == "C08F" { c.frame_systems = (2, 5); c.pct_update_step = 45; c.pct_direct_step = 30; c.steps = (3, 9); }
